@@ -1527,6 +1527,10 @@ pub async fn run_conn(ctx: Rc<Ctx>, cmds: Vec<Value>) {
                 if let Some(k) = c.get("upto").and_then(Value::as_u64) {
                     bytes.truncate(k as usize);
                 }
+                // "from": the first bytes were delivered by an earlier command (a frame sent in slices)
+                if let Some(k) = c.get("from").and_then(Value::as_u64) {
+                    bytes.drain(..(k as usize).min(bytes.len()));
+                }
                 if peer_keep.is_some() {
                     ctx.emit(Ev::new("in_dropped"));
                 } else if cuts.is_empty() {
